@@ -9,6 +9,7 @@ package main
 //   avail-show <pos> <name> <nkind> <emb> <variant> <form>   print the rendered workflow and its diagnostics
 
 import (
+	"encoding/json"
 	"fmt"
 	"os"
 	"regexp"
@@ -38,7 +39,9 @@ type avOut struct {
 	ReportedUpper bool     `json:"reported_upper"` // avail-api: the same for the upper-case spelling
 	Undefined     bool     `json:"undefined"`      // undefined variable "jobs" at the placeholder (5.22)
 	NotAllowed    int      `json:"n_notallowed"`
-	Others        []string `json:"others"` // anything else: the vector is inconclusive
+	Others        []string `json:"others"`             // anything else: the vector is inconclusive
+	Tree          string   `json:"tree,omitempty"`     // avail-api: per frame sequence '1' reported / '0' not, occurrence W(NAME)
+	TreeRaw       string   `json:"tree_raw,omitempty"` // the same for the bare NAME ('-' = not applicable)
 	Ctx           []string `json:"ctx,omitempty"`
 	Fns           []string `json:"fns,omitempty"`
 	NilCtx        bool     `json:"nilctx,omitempty"`
@@ -72,6 +75,7 @@ func avContainer(prefix string) map[string]string {
 		".credentials.username": prefix + ":\n  image: alpine\n  credentials:\n    username: @@\n    password: " + avNeutral + "\n",
 		".credentials.password": prefix + ":\n  image: alpine\n  credentials:\n    username: user\n    password: @@\n",
 		".env.<env_name>":       prefix + ":\n  image: alpine\n  env:\n    FOO: @@\n",
+		".env#expr":             prefix + ":\n  image: alpine\n  env: @@\n",
 		".ports[*]":             prefix + ":\n  image: alpine\n  ports:\n    - 80\n    - @@\n",
 		".volumes[*]":           prefix + ":\n  image: alpine\n  volumes:\n    - @@\n",
 		".options":              prefix + ":\n  image: alpine\n  options: @@\n",
@@ -307,6 +311,61 @@ func avCore(name, nkind, spelling string) string {
 
 func avW(x string) string { return "fromJSON(toJSON(" + x + "))" }
 
+// avApplyFrames places the occurrence `hole` in the expression tree: the frames are applied innermost first
+// (Availability.tla, FrameSeqs).  The other operands have type any.
+func avApplyFrames(hole string, seq []string) (string, error) {
+	e := hole
+	others := []string{avW("'a'"), avW("'b'"), avW("'c'")}
+	for i, f := range seq {
+		in := e
+		if i > 0 {
+			in = "(" + e + ")"
+		}
+		o := others[i%len(others)]
+		switch f {
+		case "orL":
+			e = in + " || " + o
+		case "orR":
+			e = o + " || " + in
+		case "andL":
+			e = in + " && " + o
+		case "andR":
+			e = o + " && " + in
+		case "not":
+			e = "!" + in
+		case "cmpL":
+			e = in + " == 'a'"
+		case "cmpR":
+			e = "'a' != " + in
+		case "argFormat":
+			e = "format('{0}', " + e + ")"
+		case "argContains":
+			e = "contains(" + e + ", 'a')"
+		case "idx":
+			e = o + "[" + e + "]"
+		case "recv":
+			e = in + ".y"
+		case "recvIdx":
+			e = in + "['y']"
+		default:
+			return "", fmt.Errorf("unknown frame %q", f)
+		}
+	}
+	return e, nil
+}
+
+// avRawOK: the bare name (an object, a bool or a string) fits under these frames without a type diagnostic
+func avRawOK(seq []string) bool {
+	for _, f := range seq {
+		switch f {
+		case "orL", "orR", "andL", "andR", "not", "argFormat":
+		default:
+			return false
+		}
+	}
+	return true
+}
+
 // avValue returns the scalar text for the position and the expression text
 func avValue(form, name, nkind, emb string) (string, string, error) {
 	spelling := ""
@@ -339,7 +398,16 @@ func avValue(form, name, nkind, emb string) (string, string, error) {
 	case "nand":
 		e = "!(" + avW(c) + " && " + avW("'a'") + ") && " + avW("'b'")
 	default:
-		return "", "", fmt.Errorf("unknown embedding %q", emb)
+		if !strings.HasPrefix(emb, "f:") {
+			return "", "", fmt.Errorf("unknown embedding %q", emb)
+		}
+		var err error
+		if e, err = avApplyFrames(avW(c), strings.Split(emb[2:], ".")); err != nil {
+			return "", "", err
+		}
+		if form == "cond" && strings.HasPrefix(e, "!") {
+			e = "(" + e + ")" // a bare `if: !...` would be a YAML tag
+		}
 	}
 	switch form {
 	case "cond":
@@ -534,7 +602,64 @@ func avAPI(v avVec) (out avOut) {
 			out.ReportedUpper = o.Reported
 		}
 	}
+	// the occurrence at every place of the expression tree
+	tree := make([]byte, len(avFrameSeqs))
+	raw := make([]byte, len(avFrameSeqs))
+	for i, seq := range avFrameSeqs {
+		tree[i], raw[i] = '-', '-'
+		holes := []string{avW(avCore(v.Name, v.NKind, ""))}
+		if avRawOK(seq) {
+			holes = append(holes, avCore(v.Name, v.NKind, ""))
+		}
+		for h, hole := range holes {
+			rep, others := avCheckTree(hole, seq, v.Name, v.NKind, ctx, sp, true)
+			for _, o := range others {
+				out.Others = append(out.Others, strings.Join(seq, ".")+": "+o)
+			}
+			b := byte('0')
+			if rep {
+				b = '1'
+			}
+			if h == 0 {
+				tree[i] = b
+			} else {
+				raw[i] = b
+			}
+		}
+	}
+	out.Tree, out.TreeRaw = string(tree), string(raw)
 	return out
+}
+
+var avFrameSeqs [][]string
+
+// avCheckTree runs the checker (configured with ctx, sp if restrict) on the occurrence placed by the frame sequence
+func avCheckTree(hole string, seq []string, name, nkind string, ctx, sp []string, restrict bool) (bool, []string) {
+	src, err := avApplyFrames(hole, seq)
+	if err != nil {
+		return false, []string{err.Error()}
+	}
+	expr, perr := actionlint.NewExprParser().Parse(actionlint.NewExprLexer(src + "}}"))
+	if perr != nil {
+		return false, []string{"parse " + src + ": " + perr.Error()}
+	}
+	c := actionlint.NewExprSemanticsChecker(false, nil)
+	c.UpdateJobs(actionlint.NewEmptyObjectType())
+	if restrict {
+		c.SetContextAvailability(ctx)
+		c.SetSpecialFunctionAvailability(sp)
+	}
+	_, errs := c.Check(expr)
+	diags := make([]Diag, 0, len(errs))
+	for _, e := range errs {
+		diags = append(diags, Diag{e.Line, e.Column, "expression", e.Message})
+	}
+	o := avOut{Others: []string{}}
+	avClassify(&o, name, nkind, 0, diags)
+	for i := range o.Others {
+		o.Others[i] = src + ": " + o.Others[i]
+	}
+	return o.Reported, o.Others
 }
 
 func init() {
@@ -549,6 +674,28 @@ func init() {
 		in, err := readJSONL[avVec](args[0])
 		if err != nil {
 			return err
+		}
+		// optional third argument: JSON file with the frame sequences of the specification
+		if len(args) > 2 {
+			raw, err := os.ReadFile(args[2])
+			if err != nil {
+				return err
+			}
+			if err := json.Unmarshal(raw, &avFrameSeqs); err != nil {
+				return err
+			}
+			// every frame sequence must be well-typed around a neutral occurrence
+			for _, seq := range avFrameSeqs {
+				holes := []string{avW("'x'")}
+				if avRawOK(seq) {
+					holes = append(holes, "'x'", "true", avW("'x'")+".obj")
+				}
+				for _, hole := range holes {
+					if _, others := avCheckTree(hole, seq, "", "ctx", nil, nil, false); len(others) > 0 {
+						return fmt.Errorf("frame sequence %v is not clean around a neutral occurrence: %v", seq, others)
+					}
+				}
+			}
 		}
 		return writeJSONL(args[1], parallelMap(in, avAPI))
 	})
